@@ -78,8 +78,10 @@ PROPS['C13'] = dict(
 )
 PROPS['C16'] = dict(
   level='proof',
-  verus=[dict(unit='ops', min_functions=40), dict(unit='native', min_functions=4), dict(unit='calls', min_functions=5)],
-  not_decided=['the ~150 native bodies, call_native / call_class bodies, recursion through native callbacks (the frame limit is proved for call / call_closure only), errors during handling'],
+  verus=[dict(unit='ops', min_functions=40), dict(unit='native', min_functions=4), dict(unit='calls', min_functions=6), dict(unit='chanq', min_functions=10)],
+  kani=[dict(crate='value', harnesses=['proofs::o16_f64_cast_positive'], kind='complete', extra=['-Z', 'unstable-options', '--no-overflow-checks'], timeout=600, jobs=1, assumption_ids=['A-kani'])],
+  not_decided=['the ~150 native bodies (only the signature gate in front of them is proved), call_native / call_class bodies, errors during handling; the front end (C15)',
+               'A-float: axiom_integral_cast_positive used by op_buffered_channel is discharged by the complete Kani harness o16_f64_cast_positive'],
 )
 _HEAP_COMPLETE = ['proofs::o20_2_next_aligned', 'proofs::o20_2_array_layout_str', 'proofs::o20_2_array_layout_tuple', 'proofs::o20_2_array_layout_instance',
                   'proofs::o20_2_vector_layout_list', 'proofs::o20_2_obj_layout_fixed']
@@ -99,13 +101,15 @@ PROPS['C20'] = dict(
 )
 
 PROPS['C05'] = dict(
-  level='other',
+  level='proof',
+  verus=[dict(unit='gctrace', min_functions=30)],
   kani=[dict(crate='trace', harnesses=['proofs::o05_2_dispatch_%s' % k for k in ['channel', 'class', 'closure', 'enumerator', 'fun', 'instance', 'list', 'method', 'native', 'string', 'lybox', 'tuple']],
              kind='bounded', bound='12 of 13 object kinds (Map excluded: generic impl cannot be stubbed), one raw object per kind, unwind 15', timeout=1200, jobs=4, mem_gb=12, assumption_ids=['A-kani', 'A-stub', 'A-bound']),
         dict(crate='gc', harnesses=_GC_C05, kind='bounded', bound='one LyBox, one or two collections, unwind 4', timeout=2400, jobs=3, assumption_ids=['A-kani', 'A-stub', 'A-bound'])],
-  explanation='bounded function-contract checks (Kani) on the real tracing dispatch and the real Allocator sweep; per-kind trace bodies and the VM/compiler root sets are NOT decided',
-  not_decided=['O-05.1 per-kind trace bodies reach every child: CBMC loses pointer provenance through the Value enum (tool limit)',
-               'root sets of Vm / Compiler / Fiber, natives\' push_root discipline, "same output under every collection schedule"'],
+  explanation='Verus: every trace body reaches every GC-typed field of its struct (contracts generated from the real struct definitions), mark-guarded handles and the 13-kind dispatch; Kani (bounded): the real dispatch and the real Allocator sweep',
+  not_decided=['root sets of Vm / Compiler (impl TraceRoot), natives\' push_root discipline, allocate/allocate_obj rooting of the in-flight object, "same output under every collection schedule"',
+               'the tri-colour invariant over the whole heap (marked objects have their children traced before the sweep) is an induction over the object graph, not stated',
+               'A-alias: Class.init aliases an entry of Class.methods (exempted field)', 'ChannelWaiter.waiter (Box<dyn TraceAny>) and Value::trace itself (two cfg variants) are leaves of the model'],
 )
 PROPS['C09'] = dict(
   level='proof',
@@ -120,13 +124,17 @@ PROPS['C10'] = dict(
   level='other',
   kani=[dict(crate='coll', harnesses=['proofs::o10r_value_identity_no_growth'], kind='bounded', bound='two lists of one element', timeout=900, jobs=1, assumption_ids=['A-kani', 'A-bound']),
         dict(crate='coll', harnesses=['proofs::o10_push_grows', 'proofs::o10_value_identity_across_growth'], kind='bounded', bound='one list len 1 cap 1, one push', timeout=1800, jobs=2, mem_gb=16,
-             assumption_ids=['A-kani', 'A-stub', 'A-bound'])],
+             assumption_ids=['A-kani', 'A-stub', 'A-bound']),
+        dict(crate='coll', harnesses=['proofs::o10_stale_pop', 'proofs::o10_stale_index_set'], kind='bounded', bound='forwarded list, relocated len <= 3, cap 3', timeout=1800, jobs=2, mem_gb=16,
+             assumption_ids=['A-kani', 'A-bound']),
+        dict(crate='coll', harnesses=['proofs::o10_stale_push', 'proofs::o10_stale_remove', 'proofs::o10_stale_insert'], kind='bounded', bound='forwarded list, relocated len <= 3, cap 3, every index 0..4, no second growth',
+             tier='thorough', timeout=2400, jobs=3, mem_gb=20, assumption_ids=['A-kani', 'A-bound'])],
   explanation='bounded function-contract checks (Kani) on the real List forwarding representation; Value identity across growth is a known finding',
   not_decided=['which aliases scan_roots rewrites; maps, instances and other mutable objects (they never relocate: identity is the address)'],
 )
 PROPS['C11'] = dict(
   level='other',
-  kani=[dict(crate='lib', harnesses=['proofs::o11_determine_index'], kind='complete', extra=['-Z', 'unstable-options', '--no-overflow-checks'], timeout=900, jobs=1, assumption_ids=['A-kani']),
+  kani=[dict(crate='lib', harnesses=['proofs::o11_determine_index', 'proofs::o11_list_determine_index'], kind='complete', extra=['-Z', 'unstable-options', '--no-overflow-checks'], timeout=900, jobs=2, assumption_ids=['A-kani']),
         dict(crate='coll', harnesses=['proofs::o11_pop'], kind='bounded', bound='list len <= 2, cap 3', timeout=900, jobs=1, assumption_ids=['A-kani', 'A-bound']),
         dict(crate='coll', harnesses=['proofs::o11_remove', 'proofs::o11_insert'], kind='bounded', bound='list len <= 3, cap 3, every index 0..4', tier='thorough', timeout=1800, jobs=2, assumption_ids=['A-kani', 'A-bound'])],
   verus=[dict(unit='native', min_functions=1)],
